@@ -168,10 +168,18 @@ def check_C01(A: Analysis, tier):
                  "(and hashed) only from that offset on", A.p.loc(itf, itf.node))
     reads = [a for a in ast.walk(lp) if isinstance(a, ast.Assign) and isinstance(a.value, ast.Call) and norm(a.value.func) == "self._obj.read"
              and isinstance(a.targets[0], ast.Name)]
-    if len(reads) != 1:
-        raise AnalysisError("Stream.__iter__: expected exactly one `x = self._obj.read(...)` in the loop")
-    var = reads[0].targets[0].id
-    rarg = reads[0].value.args[0] if reads[0].value.args else None
+    walrus = [w for w in ast.walk(lp.test) if isinstance(w, ast.NamedExpr) and isinstance(w.value, ast.Call) and norm(w.value.func) == "self._obj.read"] \
+        if isinstance(lp, ast.While) else []
+    if len(reads) + len(walrus) != 1:
+        raise AnalysisError("Stream.__iter__: expected exactly one `x = self._obj.read(...)` (or `while x := self._obj.read(...)`) in the loop")
+    if walrus:
+        var = walrus[0].target.id
+        rcall = walrus[0].value
+        reads = [walrus[0]]
+    else:
+        var = reads[0].targets[0].id
+        rcall = reads[0].value
+    rarg = rcall.args[0] if rcall.args else None
     if rarg is not None and not (norm(rarg) == "self._buffer_size" or isinstance(rarg, (ast.Name, ast.Attribute))):
         rd1.fail(itf, reads[0], f"chunks are read with size `{norm(rarg)}`, not the stream's buffer size", A.p.loc(itf, reads[0]))
     if len(yields) != 1 or not (isinstance(yields[0], ast.Yield) and isinstance(yields[0].value, ast.Name) and yields[0].value.id == var
@@ -179,13 +187,15 @@ def check_C01(A: Analysis, tier):
         rd1.fail(itf, yields[0], "what the stream yields is not exactly each chunk it read (once)", A.p.loc(itf, yields[0]))
     brk = [i for i in ast.walk(lp) if isinstance(i, ast.If) and norm(i.test) in (f"not {var}", f"{var} == b''", f"len({var}) == 0")
            and any(isinstance(b, ast.Break) for b in i.body)]
+    if walrus and lp.test is walrus[0]:
+        brk = [lp]   # `while x := read(...)`: the loop condition itself is the empty-read test
     rd1.inst(f"Stream.__iter__: loop ends on `{norm(brk[0].test) if brk else '?'}`")
     if not brk:
         rd1.fail(itf, lp, "the read loop does not end exactly when a read returns no data", A.p.loc(itf, lp))
     elif brk[0].lineno > yields[0].lineno and False:
         pass
     # an early exit other than the empty-read break truncates the content
-    extra = [n for n in ast.walk(lp) if isinstance(n, (ast.Break, ast.Return)) and not any(n is x for b in brk for x in ast.walk(b))]
+    extra = [n for n in ast.walk(lp) if isinstance(n, (ast.Break, ast.Return)) and not any(n is x for b in brk if b is not lp for x in ast.walk(b))]
     if extra:
         rd1.fail(itf, extra[0], "the read loop can stop before the end of the stream", A.p.loc(itf, extra[0]))
     rest = [c for c in ast.walk(itf.node) if isinstance(c, ast.Call) and norm(c.func) == "self._obj.seek" and c.args and norm(c.args[0]) == "self._pos"
